@@ -7,6 +7,8 @@ oracle.  Both replaceKnownInterfaces modes are driven against a deliberately dif
 locally known definition.
 """
 import random
+
+from twisted.internet import defer
 import xml.dom.minidom
 
 from harness import gen, ref_grammar as G
@@ -215,6 +217,8 @@ def one_case(ctx, seed, idx):
             for kind in ('methods', 'signals'):
                 for n, t in desc[kind].items():
                     ctx.distinct('signature_shapes', gen.shape_of(t[0]))
+        if not proxy_acceptance(ctx, r, parsed, [d for _, d in pairs], w, case):
+            return
         if use_real:
             missing = STANDARD - set(by_name)
             if missing:
@@ -223,6 +227,86 @@ def one_case(ctx, seed, idx):
     finally:
         I.DBusInterface.knownInterfaces.clear()
         I.DBusInterface.knownInterfaces.update(saved)
+
+
+class _RecConn:
+    def __init__(self):
+        self.calls = []
+
+    def callRemote(self, path, member, **kw):
+        self.calls.append((path, member, kw))
+        return defer.Deferred()
+
+
+class _RecHandler:
+    def __init__(self):
+        self.conn = _RecConn()
+
+
+def proxy_acceptance(ctx, r, parsed, declared, w, case):
+    """A proxy over the parsed interfaces accepts exactly the declared calls: (method, interface given or not, number
+    of arguments) is accepted iff an interface in question declares the method with that many arguments, and the call
+    then goes out under THAT interface with its input signature."""
+    order = list(parsed)
+    if r.random() < 0.5:
+        r.shuffle(order)
+    subset = order if r.random() < 0.6 else order[:max(1, len(order) // 2)]
+    h = _RecHandler()
+    proxy = O.RemoteDBusObject(h, 'org.verif.P', '/obj', subset)
+    decl = {i.name: {n: (m.sigIn, m.nargs) for n, m in i.methods.items()} for i in subset}
+    # (each parsed interface was compared with the exporter's declaration above, or is the locally known definition
+    # that the statement says is reused; either way the interface objects handed to the proxy are the reference here)
+    names = [i.name for i in subset]
+    methods = sorted({n for ms in decl.values() for n in ms}) + ['NotDeclaredAnywhere']
+    if len(methods) > 7:
+        methods = r.sample(methods, 7)
+    for mname in methods:
+        for given in [None] + names + ['org.verif.c15.NotAnInterface']:
+            cands = [n for n in names if (given is None or n == given) and mname in decl[n]]
+            for delta in (0, 1, -1):
+                if cands:
+                    sig_in, nargs = decl[cands[0]][mname]
+                else:
+                    sig_in, nargs = '', 0
+                n_given = nargs + delta
+                if n_given < 0:
+                    continue
+                args = [0] * n_given
+                before = len(h.conn.calls)
+                kw = {'interface': given} if given else {}
+                try:
+                    proxy.callRemote(mname, *args, **kw)
+                    outcome = 'accepted'
+                except AttributeError:
+                    outcome = 'AttributeError'
+                except TypeError:
+                    outcome = 'TypeError'
+                except Exception as e:
+                    outcome = repr(e)
+                ctx.count('proxy_call_probes')
+                want = 'AttributeError' if not cands else ('accepted' if delta == 0 else 'TypeError')
+                pw = dict(w, proxy_interfaces=names, method=mname, interface_given=given, arguments=n_given,
+                          declared_by=cands, outcome=outcome, expected=want)
+                if outcome != want:
+                    ctx.report('proxy-accepts-undeclared' if outcome == 'accepted' else 'proxy-refuses-declared',
+                               'proxy over %r: callRemote(%r, %d args, interface=%r) -> %s, expected %s (declared by %r)' % (
+                                   names, mname, n_given, given, outcome, want, cands), pw, case)
+                    return False
+                if outcome == 'accepted':
+                    sent = h.conn.calls[before:]
+                    if len(sent) != 1 or sent[0][1] != mname or sent[0][2].get('interface') != cands[0] or \
+                            sent[0][2].get('signature') != sig_in:
+                        pw['sent'] = repr(sent)[:300]
+                        ctx.report('proxy-call-misdirected', 'accepted call %s went out as %r, expected interface %s signature '
+                                   '%r' % (mname, sent, cands[0], sig_in), pw, case)
+                        return False
+                    ctx.count('proxy_calls_accepted')
+                else:
+                    if len(h.conn.calls) != before:
+                        ctx.report('proxy-call-misdirected', 'refused call still reached the connection', pw, case)
+                        return False
+                    ctx.count('proxy_calls_refused')
+    return True
 
 
 def same_name_case(ctx, seed, idx):
